@@ -1176,6 +1176,9 @@ class PyReader:
             return self.truthy(args[0], n)
         if name == "len" and len(args) == 1 and isinstance(args[0], (list, dict, str)):
             return len(args[0])
+        if name == "sum" and len(args) in (1, 2) and not kwargs and name not in self.functions and isinstance(args[0], list) \
+                and all(isinstance(x_, int) and not isinstance(x_, bool) for x_ in list(args[0]) + list(args[1:])):
+            return sum(consume(args[0]) if isinstance(args[0], PyIter) else args[0], *args[1:])  # a count: sum(1 for x in xs if test(x))
         if name in ("max", "min") and args and all(isinstance(a, int) for a in args):
             return max(args) if name == "max" else min(args)
         if name in ("list", "tuple") and len(args) == 1 and isinstance(args[0], PyIter) and name not in self.functions:
